@@ -51,6 +51,8 @@ def configs(draw, tier):
             "extra": draw(st.sampled_from(["none", "none", "func", "many"])),
             # the calls are made while the calling task is handling an unrelated exception
             "in_handler": draw(st.booleans()),
+            # a suppressing manager also swallows what is not an Exception (the cancellation thrown into a body)
+            "suppress_base": draw(st.booleans()),
             "choices": draw(st.lists(st.integers(0, 3), max_size=40))}
 
 
@@ -86,7 +88,7 @@ def run_config(case, impl, choices=None, default="rr"):
             note("exit", exc)
             for _ in range(case["exit_susp"]):
                 await ctx.suspend(("exit", gid))
-            if not case["suppress"] or not isinstance(exc, Exception):
+            if not case["suppress"] or not (isinstance(exc, Exception) or case.get("suppress_base")):
                 raise
         else:
             note("exit", None)
@@ -105,7 +107,7 @@ def run_config(case, impl, choices=None, default="rr"):
             note("exit", ev)
             for _ in range(case["exit_susp"]):
                 await ctx.suspend(("exit", "class"))
-            return bool(case["suppress"] and isinstance(ev, Exception))
+            return bool(case["suppress"] and (isinstance(ev, Exception) or (case.get("suppress_base") and ev is not None)))
 
     if case["kind"] == "gen":
         maker = (a.contextmanager if impl == "a" else contextlib.asynccontextmanager)(gen_manager)
@@ -209,6 +211,12 @@ def invariants(case, r):
                 body_done = "body-end" in names
                 if not body_done and ev is not result[1] and key not in r["errors"]:
                     return ("exit-did-not-receive-cancellation", f"{key}: {ev!r}")
+            continue
+        if (case["suppress"] and case.get("suppress_base") and names and names[-1] == "exit"
+                and events[-1][1] is r["cancel"] and r["cancel"] is not None):
+            # the cancellation hit the body, was handed to the manager's exit and swallowed there
+            if names != ["enter", "entered", "body-start", "exit"] or result != ("return", None):
+                return ("swallowed-cancellation-not-suppressed", f"{key}: {names} {result!r}")
             continue
         want_body = "body-end" if key not in r["errors"] else None
         expected = ["enter", "entered", "body-start"] + ([want_body] if want_body else []) + ["exit"]
